@@ -524,6 +524,14 @@ func TestPropIDTransformer(t *testing.T) {
 		if rapid.IntRange(0, 9).Draw(t, "idLikeTag") == 0 {
 			id = "$" + tag // an id spelled like the placeholder itself
 		}
+		for i, tk := range toks {
+			// (an id spelled like ANOTHER placeholder of the pattern would be replaced along with
+			// that placeholder when the caller fills in the remaining ones: not a round trip
+			// anybody can expect)
+			if i != tagAt && tk == id {
+				id += "x"
+			}
+		}
 		if !refmux.ValidPart(id) {
 			t.Fatalf("generator produced an invalid part %q", id)
 		}
